@@ -5,6 +5,7 @@ import (
 	"encoding/json"
 	"fmt"
 	"io"
+	"math/big"
 	"os"
 	"path/filepath"
 	"sort"
@@ -48,14 +49,24 @@ func cfg() *specgen.SpecCfg {
 	}
 }
 
+var bigIntKeyword = map[string]string{"string": "maxLength", "array": "maxItems", "object": "maxProperties"}
+
+// all within int64; none is representable as a float64
+var bigInts = []string{"9007199254740993", "4611686018427387905", "9223372036854775807", "36028797018963969"}
+
 // sprinkle puts ambiguous defaults / examples on unconstrained primitives.
 func sprinkle(t *rapid.T, doc J) {
+	big := rapid.IntRange(0, 4).Draw(t, "bigints") == 0 // one spec in five, so that the rounding finding does not mask the rest
 	for i, s := range specgen.SchemaSites(doc, false) {
 		if s.S["enum"] != nil || s.S["format"] != nil || s.S["pattern"] != nil || s.S["minLength"] != nil || s.S["maxLength"] != nil ||
 			s.S["minimum"] != nil || s.S["maximum"] != nil || s.S["multipleOf"] != nil {
 			continue
 		}
 		l := fmt.Sprintf("spr%d", i)
+		// integer-valued keywords (Go int64 in the spec model) beyond 2^53: exact in JSON, lost by any float64 detour
+		if kw := bigIntKeyword[fmt.Sprint(s.S["type"])]; big && kw != "" && s.S[kw] == nil && rapid.IntRange(0, 2).Draw(t, l+"big") == 0 {
+			s.S[kw] = json.Number(rapid.SampledFrom(bigInts).Draw(t, l+"bigv"))
+		}
 		switch s.S["type"] {
 		case "string":
 			if rapid.IntRange(0, 2).Draw(t, l) == 0 {
@@ -131,7 +142,10 @@ func runCmd(c Case, inExt, outFmt string) (res result) {
 	out := filepath.Join(dir, "out."+outFmt)
 	_ = os.Remove(out)
 	write := func(name string, raw json.RawMessage) string {
-		tree, _ := specgen.Parse(raw)
+		var tree any
+		dec := json.NewDecoder(bytes.NewReader(raw))
+		dec.UseNumber() // integers beyond 2^53 must reach the YAML rendering digit by digit
+		_ = dec.Decode(&tree)
 		if inExt == "yaml" {
 			return swg.WriteTemp(dir, name+".yaml", specgen.YAML(tree))
 		}
@@ -259,6 +273,16 @@ func normYAML(v any) any {
 	return v
 }
 
+// bigIntLiteral: an integer literal (digits only) of magnitude above 2^53.
+func bigIntLiteral(n json.Number) bool {
+	x := strings.TrimPrefix(string(n), "-")
+	if x == "" || strings.Trim(x, "0123456789") != "" {
+		return false
+	}
+	v, ok := new(big.Int).SetString(x, 10)
+	return ok && v.Cmp(big.NewInt(1<<53)) > 0
+}
+
 // firstDiff returns the path of the first difference between two JSON trees
 // ("" if equal); numbers compare by float64 value.
 func firstDiff(a, b any, path string) string {
@@ -267,6 +291,15 @@ func firstDiff(a, b any, path string) string {
 	if aok || bok {
 		if !(aok && bok) {
 			return fmt.Sprintf("%s: %T(%v) vs %T(%v)", path, a, a, b, b)
+		}
+		if bigIntLiteral(na) || bigIntLiteral(nb) {
+			// an integer beyond 2^53 written out digit by digit: compare exactly, a float64 detour must not hide
+			ra, oka := new(big.Rat).SetString(string(na))
+			rb, okb := new(big.Rat).SetString(string(nb))
+			if !oka || !okb || ra.Cmp(rb) != 0 {
+				return fmt.Sprintf("%s: number %v vs %v", path, na, nb)
+			}
+			return ""
 		}
 		fa, _ := na.Float64()
 		fb, _ := nb.Float64()
@@ -423,6 +456,11 @@ func kindOfDiff(d string) string {
 	case strings.Contains(d, "present="):
 		return "key-missing:" + keyClass(d)
 	case strings.Contains(d, "number"):
+		if i := strings.LastIndex(d, ": number "); i >= 0 {
+			if f := strings.Fields(d[i+9:]); len(f) == 3 && (bigIntLiteral(json.Number(f[0])) || bigIntLiteral(json.Number(f[2]))) {
+				return "integer-above-2^53-rounded"
+			}
+		}
 		return "number"
 	case strings.Contains(d, "(bool)") || strings.Contains(d, "(json.Number)") || strings.Contains(d, "null vs") || strings.Contains(d, "(<nil>)"):
 		return "retyped-scalar"
@@ -442,6 +480,8 @@ func errClass(e string) string {
 	switch {
 	case strings.Contains(e, "2002:merge"):
 		return "unquoted-merge-indicator"
+	case strings.Contains(e, "cannot unmarshal number") && strings.Contains(e, "of type int64"):
+		return "integer-rounded-beyond-int64"
 	case strings.Contains(e, "value out of range"):
 		return "integer-beyond-int64"
 	case strings.Contains(e, "control characters are not allowed"):
@@ -455,7 +495,7 @@ func errClass(e string) string {
 }
 
 func prio(c string) int {
-	for i, x := range []string{"panic", "control-character", "integer-beyond-int64", "unquoted-merge-indicator", "malformed-yaml-output", "other"} {
+	for i, x := range []string{"panic", "control-character", "integer-beyond-int64", "integer-rounded-beyond-int64", "unquoted-merge-indicator", "malformed-yaml-output", "other"} {
 		if x == c {
 			return i
 		}
